@@ -66,9 +66,21 @@ def parseFmt (w : List String) : Option (String × Fmt) :=
     else none
   | _ => none
 
+def parseCollAct (s : String) : Option CollAct :=
+  match s.splitOn ":" with
+  | ["alloc", n] => n.toNat?.map .alloc
+  | ["set", i, a] => i.toNat?.map fun i => .set i a
+  | ["get", i] => i.toNat?.map .get
+  | ["size"] => some .size
+  | _ => none
+
 def parseOp (w : List String) : Option Op :=
   match w with
   | ["skip"] => some .skip
+  | "coll" :: acts => (acts.mapM parseCollAct).map .coll
+  | ["selfassignc", l] => some (.selfassignc l)
+  | ["selfrepl", l, h] => (bytes? h).map fun b => .selfrepl l (cbuf b)
+  | ["selfreplw", l, h] => (bytes? h).map fun b => .selfreplw l (cbuf b)
   | ["junk", b] => (byte? b).map .junk
   | ["new", l, h] => (bytes? h).map fun b => .new l (cbuf b)
   | ["newnull", l] => some (.newnull l)
@@ -404,6 +416,41 @@ def specStep (sh : Shadow) (o : Proto.Op) : Except String Shadow := do
     | ["copybufnull", _, _] => do
       if firstBuf obs != some "null" then throw "copyToBuffer(NULL): no result"
       pure sh
+    | "coll" :: acts => do
+      -- shadow collection: allocate(n) gives n empty strings; an index past the end reads as ""
+      -- and a store there is not visible afterwards; size() is the last allocate
+      let mut items : List Bytes := []
+      let mut expected : List (List String) := []
+      for a in acts do
+        match parseCollAct a with
+        | some (.alloc n) => items := List.replicate n []
+        | some (.set i l) =>
+          let v ← need sh l
+          if i < items.length then items := items.set i v
+        | some (.get i) => expected := expected ++ [["cval", hexw (items.getD i [])]]
+        | some .size => expected := expected ++ [["csize", toString items.length]]
+        | none => throw "bad-op"
+      let got := obs.filter fun l => l.head? == some "cval" || l.head? == some "csize"
+      if got != expected then
+        throw s!"SimpleStringCollection: observed {got}, textbook {expected}"
+      pure sh
+    | ["selfassignc", l] => do mk l "operator=(own asCharString())" (← need sh l)
+    | ["selfrepl", l, h] => do
+      let some b := bytes? h | throw "bad-op"
+      let v ← need sh l
+      if v.isEmpty then
+        match firstVal obs with
+        | some r => pure (sh.put l r)
+        | none => throw "replace: no result"
+      else mk l "replace(own asCharString(), with)" (Text.replaceAll v v (cut b))
+    | ["selfreplw", l, h] => do
+      let some b := bytes? h | throw "bad-op"
+      let v ← need sh l
+      if (cut b).isEmpty then
+        match firstVal obs with
+        | some r => pure (sh.put l r)
+        | none => throw "replace: no result"
+      else mk l "replace(to, own asCharString())" (Text.replaceAll v (cut b) v)
     | ["strlen", h] => do
       let some b := bytes? h | throw "bad-op"
       expectRet "StrLen" obs (toString (cut b).length)
